@@ -9,7 +9,7 @@ if __name__ == "__main__":
     root = sys.argv[1] if len(sys.argv) > 1 else "/repo"
     prog = Program(root, normalise=False)
     for m in prog.by_rel.values():
-        norm.canon_tree(m.tree)
+        norm.canon_tree(m.tree, cython=m.pyx is not None)
     data = norm.build_frozen([(rel, m.tree) for rel, m in sorted(prog.by_rel.items())])
     with open(norm.FROZEN_PATH, "w") as fh:
         json.dump(data, fh, indent=0, sort_keys=True)
